@@ -137,7 +137,35 @@ def handler_mutants(behaviours, tier, seed):
     return out
 
 
+def _q_required(events):
+    seen = set()
+    for e in events:
+        seen.add(e["st"][0])
+        if e["op"]["o"] == "result" and len(e["ret"][1]) >= 2:
+            seen.add("result>=2")
+        if any(p[1] == "Unresponsive" for p in e["st"][2]):
+            seen.add("Unresponsive")
+        if e["ret"][0] == "WaitingAtCapacity":
+            seen.add("AtCapacity")
+    return [n for n in ["Stalled", "Finished", "Unresponsive", "AtCapacity", "result>=2"] if n not in seen]
+
+
 PARTS = {
+    "query": dict(
+        component="query", spec="MC_Query.tla",
+        mc={"quick": ["MC_Query.cfg"], "thorough": ["MC_Query.cfg", "MC_Query_b.cfg"]},
+        goals_cfg="MC_Query_goal.cfg", goals=["GoalStalled", "GoalLateSuccess", "GoalFinishFull"],
+        sim={"quick": [dict(cfg="MC_Query_sim.cfg", num=150, depth=40)], "thorough": [dict(cfg="MC_Query_sim.cfg", num=3000, depth=60)]},
+        drive={"quick": 4000, "thorough": 100000},
+        trace="Trace_Query.tla", mon_cfg="Trace_Query_mon.cfg", strict_cfg="Trace_Query_strict.cfg",
+        formulas={"C09.ContactTwice": "C09", "C09.Parallelism": "C09",
+                  "C10.OrderOrSize": "C10", "C10.NotAnswered": "C10", "C10.PredicateMismatch": "C10", "C10.Incomplete": "C10"},
+        interesting=lambda e: e["op"]["o"] in ("on_success", "on_failure", "drain", "result") or e["ret"][0] in ("WaitingAtCapacity",),
+        required=_q_required,
+        assumptions=["the state machines are driven through the QueryFacade hook with explicit time (FindNodeQuery::next(now)); a model peer p is the node id with numeric value p and the target is the all-zero id, so XOR distance = p",
+                     "the pool-level query timeout (QueryPool::poll reads Instant::now) and the exactly-once hand-over of the result by the service are not bound by this part",
+                     "'requests in flight' is the lookup's own notion: contacted peers without a reported outcome whose peer timeout has not elapsed; the bound is the parallelism until the lookup has stalled and num_results afterwards (DESIGN 5/C09)"],
+    ),
     "handler_mut": dict(
         component="handler", spec="MC_Handler.tla",
         mc={"quick": ["MC_Handler_init.cfg"], "thorough": ["MC_Handler_init.cfg", "MC_Handler_tiny.cfg"]},
@@ -215,6 +243,8 @@ PROPS = {
     "C02": dict(parts=[dict(name="handler_mut")]),
     "C03": dict(parts=[dict(name="handler", mc={"quick": ["MC_Handler_atkq.cfg"], "thorough": ["MC_Handler_atkq.cfg", "MC_Handler_tiny.cfg"]})]),
     "C04": dict(parts=[dict(name="handler")]),
+    "C09": dict(parts=[dict(name="query")]),
+    "C10": dict(parts=[dict(name="query")]),
     "C13": dict(parts=[dict(name="handler")]),
     "C19": dict(parts=[dict(name="handler")]),
     "C15": dict(parts=[dict(name="lru"), dict(name="handler", mc={"quick": [], "thorough": ["MC_Handler_time.cfg"]})]),
